@@ -33,7 +33,9 @@ import time
 
 import core
 
-LEVEL_NOTE = ("theorems are about model/Lookup.v (the memo is part of the model state); the model is tied to the code by "
+LEVEL_NOTE = ("where several frames of a matrix carry the key a lookup is asked for, the property wants one of them, not a particular one: the "
+              "model's answer (first / memoised) and the implementation's are tied modulo that choice, and a history is tied only up to the "
+              "point where such a choice enters the state; theorems are about model/Lookup.v (the memo is part of the model state); the model is tied to the code by "
               "running every history of the search through both; outside: get_frame_by_id/get_frame_by_name (dict indexes), "
               "callers that mutate db.frames other than by the reader-style append, one Frame object placed in two matrices, "
               "ArbitrationId.extended set to None by assignment (wildcard), names with a leading/trailing '*' (C17)")
@@ -200,6 +202,8 @@ class Runner:
             if x not in names:
                 names.append(x)
             return names.index(x) + 1
+        choice = {}           # index into exp -> (uids of ALL frames carrying the key, does the answer change the state)
+        trunc = [None]        # index into exp after which the model is not compared any more (see compare_model)
         last_obs = {}         # matrix -> answers of the latest complete observation
         touched = set()       # matrices an operation was addressed to since then
         mats = []
@@ -306,6 +310,9 @@ class Runner:
                     raised = type(ex).__name__
                 mops.append([15, mi, op[2]])
             exp.append([3] if raised is not None else [1, uid_of(r)])
+            if len(carrying) > 1:
+                # the property asks for "a frame that carries the key": which one is not fixed
+                choice[len(exp) - 1] = ([uid_of(f) for f in carrying], kind == "lid")
             check(step, op, mi, r, carrying, raised)
             return r
 
@@ -397,9 +404,14 @@ class Runner:
                     exp.append([3])
                 mops.append([4 if kind == "rem" else 5, mi, uid_of(f) if id(f) in uid else -1])
             elif kind == "deln":
+                named = [f for f in db.frames if f.name == nm(op[2])]
                 db.del_frame(nm(op[2]))
                 mops.append([6, mi, nidx(op[2])])
                 exp.append([0])
+                if len(named) > 1 and any(named[0] is f for f in db.frames) and trunc[0] is None:
+                    # del_frame(name) deletes the frame frame_by_name answers with; among several of that name the property
+                    # fixes none, the model takes the first: from here on the two worlds differ legitimately
+                    trunc[0] = len(exp)
             elif kind == "ren":
                 db.rename_frame(nm(op[2]), nm(op[3]))
                 mops.append([7, mi, nidx(op[2]), nidx(op[3])])
@@ -435,6 +447,8 @@ class Runner:
                 f = db.frame_by_id(C.ArbitrationId(i, e))
                 mops.append([17, mi, i, int(e), op[4]])
                 exp.append([1, uid_of(f)])
+                if len(carrying) > 1:
+                    choice[len(exp) - 1] = ([uid_of(g) for g in carrying], True)
                 check(step, ["lid", mi, i, e], mi, f, carrying)
                 if f is not None:
                     f.arbitration_id.id = op[4]
@@ -512,7 +526,7 @@ class Runner:
                     memos.append(None)
             else:
                 memos.append(None)
-        return dict(mops=mops, exp=exp, state=state, memos=memos, failures=failures, nlook=nlook, skipped=skipped,
+        return dict(mops=mops, exp=exp, choice=choice, trunc=trunc[0], state=state, memos=memos, failures=failures, nlook=nlook, skipped=skipped,
                     nframes=[len(d.frames) for d in mats])
 
 
@@ -532,14 +546,41 @@ def model_line(res):
     return "3e9 " + " | ".join([" ".join([_hx(z) for z in g]) for g in res["mops"]])
 
 
-def compare_model(res, out_line):
-    """None when the model transcript equals the implementation's, else a description"""
+def compare_model(res, out_line, info=None):
+    """None when the model transcript agrees with the implementation's, else a description.
+    Agreement is judged modulo what the property leaves open: where SEVERAL frames of the matrix carry the key a lookup was
+    asked for, the property wants "a frame that ... carries the requested key", not a particular one; the model (like the code
+    today) takes the first / the memoised one.  There the two answers only have to be carriers both (res["choice"]).  If the
+    answers differ and the answer feeds the state (frame_by_id fills the memo, changeFrameId edits the frame found, del_frame by
+    name removes the frame found) the rest of the history and the final state are not compared (truncated).
+    info (dict): exact = no such difference occurred; truncated = comparison stopped early."""
     groups = core.parse_out(out_line)
-    n = len(res["exp"])
-    if groups[:n] != res["exp"]:
-        k = next((i for i in range(min(n, len(groups))) if groups[i] != res["exp"][i]), min(n, len(groups)))
-        return dict(at_model_op=k, op=res["mops"][k] if k < len(res["mops"]) else None,
-                    model=groups[k] if k < len(groups) else None, impl=res["exp"][k] if k < n else None)
+    exp = res["exp"]
+    n = len(exp)
+    if info is not None:
+        info["exact"], info["truncated"] = True, False
+    upto = n if res["trunc"] is None else res["trunc"]
+    if groups[:n] != exp or upto < n:
+        k = 0
+        while k < upto:
+            g = groups[k] if k < len(groups) else None
+            if g != exp[k]:
+                c = res["choice"].get(k)
+                if c is None or g is None or len(g) != 2 or g[0] != 1 or g[1] not in c[0]:
+                    return dict(at_model_op=k, op=res["mops"][k] if k < len(res["mops"]) else None, model=g, impl=exp[k],
+                                carriers=c[0] if c else None)
+                if info is not None:
+                    info["exact"] = False
+                if c[1]:
+                    upto = -1           # the answer feeds the state: stop here
+                    break
+            k += 1
+        if upto < n:
+            if info is not None:
+                info["exact"], info["truncated"] = False, True
+            return None
+        if len(groups) < n:
+            return dict(at_model_op=len(groups), model=None, impl=exp[len(groups)])
     rest = groups[n:]
     nm = res["state"][0][1]
     if len(rest) != 1 + 2 * nm:
@@ -665,11 +706,18 @@ def worker_explore(args):
             batch.clear()
             return
         outs = core.run_model([model_line(r) for _, r in batch])
+        info = {}
         for (h, r), o in zip(batch, outs):
-            d = compare_model(r, o)
+            d = compare_model(r, o, info)
             stats["tie_cases"] += 1
             if d is not None and len(stats["ties"]) < 20:
                 stats["ties"].append((h, d))
+            if not info["exact"]:
+                stats["hist"]["tie-modulo-choice-among-carriers"] = stats["hist"].get("tie-modulo-choice-among-carriers", 0) + 1
+            if info["truncated"]:
+                stats["hist"]["tie-truncated-after-open-choice"] = stats["hist"].get("tie-truncated-after-open-choice", 0) + 1
+            if d is None and info["exact"] and want_lines and len(stats["lines"]) < want_lines and len(h) >= 3:
+                stats["lines"].append((r["mops"], r["exp"]))
         batch.clear()
 
     def sink(h, res):
@@ -688,8 +736,6 @@ def worker_explore(args):
                 stats["fails"].append(h + [["obs"]])
         else:
             batch.append((h, res))
-            if want_lines and len(stats["lines"]) < want_lines and len(h) >= 3:
-                stats["lines"].append((res["mops"], res["exp"]))
             if len(batch) >= 4000:
                 flush()
 
@@ -824,18 +870,28 @@ def worker_random(args):
     outs = core.run_model(lines) if lines and tie else []
     ties = []
     it = iter(outs)
-    for ops, r in out:
+    info = {}
+    exact = set()
+    nchoice = ntrunc = 0
+    for i, (ops, r) in enumerate(out):
         if r["failures"]:
             continue
         o = next(it, None)
         if o is None:
             break
-        d = compare_model(r, o)
+        d = compare_model(r, o, info)
         if d is not None:
             ties.append((ops, d))
-    slim = [(ops, dict(failures=r["failures"], nlook=r["nlook"], mops=r["mops"] if i < 3 else None, exp=r["exp"] if i < 3 else None,
-                       nm=r["state"][0][1], nobj=r["state"][0][2])) for i, (ops, r) in enumerate(out)]
-    return slim, ties, len(outs), dict(load_failed=runner.load_failed, memo_after_load=runner.memo_after_load)
+        elif info["exact"]:
+            exact.add(i)
+        nchoice += not info["exact"]
+        ntrunc += info["truncated"]
+    keep = set(sorted(exact)[:3])     # a few exactly agreeing histories go to the in-Coq shard
+    slim = [(ops, dict(failures=r["failures"], nlook=r["nlook"], mops=r["mops"] if i in keep else None,
+                       exp=r["exp"] if i in keep else None, nm=r["state"][0][1], nobj=r["state"][0][2]))
+            for i, (ops, r) in enumerate(out)]
+    return slim, ties, len(outs), dict(load_failed=runner.load_failed, memo_after_load=runner.memo_after_load,
+                                       choice=nchoice, truncated=ntrunc)
 
 
 # ---- shrinking ----
@@ -1162,6 +1218,8 @@ def run(chk):
             uni = tag = "edge" if readers == "edge" else "readers" if readers else "rand"
             for k in reader_stats:
                 reader_stats[k] += rstat[k]
+            chk.count("tie-modulo-choice-among-carriers", rstat["choice"])
+            chk.count("tie-truncated-after-open-choice", rstat["truncated"])
             for ops, r in slim:
                 edits = sum(1 for o in ops if o[0] not in ("new", "newdbc", "load", "obs", "lid", "lname", "lpgn", "lhdr"))
                 chk.case((tag, json.dumps(ops)), edits > 0)
